@@ -1,6 +1,7 @@
 import GoRedisModel.Model.Wire
 import GoRedisModel.Model.ParserImpl
 import GoRedisModel.Model.Show
+import GoRedisModel.Proofs.Interleave
 /-! Line-protocol driver: one case per input line, one canonical result per output line.
 Built as the core-only executable `modeldriver`; the definitions it runs are the ones the theorems are about. -/
 open GoRedis
@@ -108,6 +109,40 @@ def runServeCase (c : ServeCase) : String :=
     else ""
   String.intercalate " " toks ++ blk
 
+/-- pairs "<conn id> <hex request>" -/
+def parseSchedule : List String → List (Nat × Bytes)
+  | i :: h :: rest => (i.toNat?.getD 0, unhex h) :: parseSchedule rest
+  | _ => []
+
+def showSysEv (i : Nat) : Ev → Option String
+  | .wr bs => some s!"c{i}:wr:{canonReply bs}"
+  | .hcall c v => some s!"c{i}:hc:{showCall c}@{v.db},{b01 v.authorized},own"
+  | _ => none
+
+/-- run a schedule request by request, rendering the tagged events; a connection that ends is closed -/
+def runSchedule (pf : FloatOracle) : Sys → List (Nat × Bytes) → List String
+  | _, [] => []
+  | s, (i, raw) :: rest =>
+    match parse (raw.length + 1) raw with
+    | .ok m _ =>
+      let alive := match s.conns[i]? with | some (some _) => true | _ => false
+      let (s1, evs) := s.step pf i m
+      let ended := alive && (match s1.conns[i]? with | some (some _) => false | _ => true)
+      evs.filterMap (showSysEv i) ++ (if ended then [s!"c{i}:close"] else []) ++ runSchedule pf s1 rest
+    | _ => runSchedule pf s rest
+
+def runSysCase (ts : List String) : String :=
+  let secs := splitBar ts
+  let cfg := secs.headD []
+  let n := (cfg.filterMap fun t => if t.startsWith "n=" then (t.drop 2).toString.toNat? else none).headD 1
+  let pw := (cfg.filterMap fun t => if t.startsWith "pw=" then some (unhex (t.drop 3).toString) else none).head?
+  let script := parseScript (secs.getD 1 [])
+  let floats := parseFloatTable (secs.getD 2 [])
+  let pf : FloatOracle := fun tok => floats.lookup tok
+  let srv : SrvSt := { authPw := pw, config := (match pw with | some p => [(b!"requirepass", p)] | none => []) ++ [(b!"port", b!"6379")] }
+  let s : Sys := { srv := srv, conns := List.replicate n (some { authorized := !pw.isSome }), script := script }
+  String.intercalate " " (runSchedule pf s (parseSchedule (secs.getD 3 [])))
+
 def handleLine (toks : List String) : String :=
   match toks with
   | "enc" :: ts =>
@@ -129,6 +164,7 @@ def handleLine (toks : List String) : String :=
         s!"enc={hex b} back={back} reenc={re}"
     | none => "bad-case"
   | "serve" :: ts => runServeCase (parseServeCase ts)
+  | "sys" :: ts => runSysCase ts
   | "chunks" :: ts => streamOutcome ((afterBar ts).map unhex) 1048576
   | "hostile" :: hs => streamOutcome (hs.map unhex) 1048576
   | ["ctor", "int", n] =>
